@@ -1,5 +1,5 @@
 """Property -> rules mapping (what bin/check <id> runs) with the explanation / assumptions written into the evidence."""
-from .rules import attrs, cfg, conv, dbg, det, errsel, fmtdec, fmtparse, hdr, hyg, idx, ops, panics, rawid, shape, split
+from .rules import attrs, cfg, conv, dbg, det, errsel, fmtdec, fmtoracle, fmtparse, hdr, hyg, idx, ops, panics, rawid, shape, split
 
 PROPS = {}
 
@@ -39,10 +39,11 @@ prop(
 prop(
     "C03",
     [fmtparse.rule_peg_combinators, fmtparse.rule_peg_tables, fmtparse.rule_fmt_counter, fmtparse.rule_peg_equiv, fmtdec.rule_transparent_call, fmtdec.rule_dec_cover],
+    thorough=[fmtoracle.rule_reference_oracle],
     level="model_checking",
     explanation="A PEG is extracted from the combinator source of impl/src/fmt/parsing.rs on every run (fail-closed on any construct it does not understand) and compared, by table rules and by bounded "
     "exhaustive equivalence, with std::fmt's documented grammar (read from the toolchain's alloc/src/fmt.rs) as rustc_parse_format disambiguates it; the implicit-argument counter of the consumer is checked "
-    "structurally. The model is derived from source; no code of the crate runs.",
+    "structurally. The model is derived from source; no code of the crate runs. Thorough tier: the reference reader itself is validated against rustc's verdict on `format_args!` literals (G-ORACLE).",
     assumptions=[
         "extraction fidelity: the combinators keep the std Option/Iterator semantics checked by G-COMB",
         "the reference reading of std's grammar (fill/align by one-character look-ahead, `0$`, `.*`, identifier = XID) follows rustc_parse_format; python's str.isidentifier approximates XID_Start/XID_Continue",
